@@ -307,6 +307,8 @@ type Case struct {
 	Compete bool            `json:"compete"`
 	Mixed   bool            `json:"mixed"`
 	NotAmp  bool            `json:"notamp"`
+	InsetMix bool           `json:"insetmix"` // an `inset` shorthand with a value of newer syntax (min()/max())
+	NotAmpC bool            `json:"notampc"` // `&` inside :not() under a parent that is complex after substitution
 
 	Family string `json:"-"`
 	Name   string `json:"-"`
